@@ -254,6 +254,19 @@ def infer_subject(facts, cls_full):
         seqs = [f for f in seqs if f['name'] in touched] or seqs
         ints = [f for f in ints if f['name'] in touched] or ints
         sets = [f for f in sets if f['name'] in touched] or sets
+    if len(ints) > 1:
+        # an id counter only ever grows; a member that is also stepped down (or set from a size) counts something else (entries, removals)
+        down = set()
+        for g in [f for f in facts.fns if f.d.get('classfull') == cls_full]:
+            for n in g.nodes():
+                tgt = None
+                if n.k == 'unop' and n.op == '--': tgt = n.n('sub')
+                elif n.k == 'binop' and n.op in ('-=',): tgt = n.n('lhs')
+                elif n.k == 'binop' and n.op == '=' and n.n('rhs') is not None and any(x.k == 'call' and x.callee_base() in ('size', 'distance', 'count_if') for x in n.n('rhs').walk()): tgt = n.n('lhs')
+                while tgt is not None and tgt.k == 'cast': tgt = tgt.n('sub')
+                if tgt is not None and tgt.k == 'member' and tgt.field: down.add(tgt.name)
+        keep = [f for f in ints if f['name'] not in down]
+        if len(keep) == 1: ints = keep
     if len(seqs) == 1 and len(sets) == 1 and len(ints) == 0:
         ints = [dict(name='m_subscriptionCounter')]          # no counter at all: the rules report what the id is derived from
     if len(seqs) != 1 or len(sets) != 1 or len(ints) != 1:
